@@ -214,8 +214,9 @@ def run(ix, R):
                 why.append('%s = %s' % (lo, fmt(fl, env.get(lo))))
             if st not in env or not fl.tab.equal(env[st], spec(fl, 'mpi.nprocs()')):
                 why.append('%s = %s' % (st, fmt(fl, env.get(st))))
-            if unparse(it.value) != 'sample_list':
-                why.append('partitions %s' % unparse(it.value))
+            bnames = {e.name for e in fl.of('assign') if isinstance(e.value, RF) and 'broadcast' in fmt(fl, e.value)}
+            if unparse(it.value) not in bnames:
+                why.append('partitions %s, which is not the broadcast list' % unparse(it.value))
         R.check('1.part.profiles', 'MPI', site,
                 'samples are split as sample_list[rank::size], rank = mpi.get_rank(), size = mpi.nprocs() (disjoint cover)',
                 not why, key='; '.join(why), detail='; '.join(why), loc=inner.loc(lp))
@@ -274,7 +275,10 @@ def run(ix, R):
         ba = atom_of(fl, bc.args[0])
         if ba is None or ba.head != 'guard' or 'sample_parameters' not in fmt(fl, ba.args[1]):
             why.append('broadcasts %s' % fmt(fl, bc.args[0]))
-        asg = [e for e in fl.of('assign') if e.name == 'sample_list']
+        inner_ = ix.func(site + '.sample_iter')
+        part = [n.iter.value.id for n in walk_no_nested(inner_.node) if isinstance(n, ast.For) and
+                isinstance(n.iter, ast.Subscript) and isinstance(n.iter.value, ast.Name)]
+        asg = [e for e in fl.of('assign') if part and e.name == part[0]]
         if not asg or 'broadcast' not in fmt(fl, asg[-1].value):
             why.append('partitioned list is not the broadcast result')
         R.check('2.draw', 'MPI', site,
@@ -394,12 +398,22 @@ for V_x in V_s:
             es = [e for e in fl.of('store') if unparse(e.target_ast) == k]
             if len(es) != 1 or es[0].op != 'Add' or not fl.tab.equal(es[0].value, spec(fl, inc, pe)):
                 why.append('%s update %s' % (k, [unparse(e.node) for e in es]))
-        mo = [e for e in fl.of('assign') if e.name == 'mean_old']
+        mo = None
         means = [e for e in fl.of('store') if unparse(e.target_ast) == 'self.mean' and e.op is None
-                 and not any(g.test is None for g in e.guards) and not any('is None' in g.text() for g in e.guards)]
+                 and not any(g.rf is None or (atom_of(fl, g.rf) is not None and atom_of(fl, g.rf).head == 'except')
+                             for g in e.guards) and not any(
+                     g.rf is not None and guard_is(fl, g, spec(fl, 'self.mean is None'), True) for g in e.guards)]
         m2 = [e for e in fl.of('store') if unparse(e.target_ast) == 'self.M2' and e.op == 'Add']
-        if len(mo) != 1 or len(means) != 1 or len(m2) != 1:
-            why.append('update statements: mean_old %d, mean %d, M2 %d' % (len(mo), len(means), len(m2)))
+        # the previous mean: the local whose value the new mean is built from (whatever it is called)
+        if len(means) == 1:
+            W_ = code(fl, 'self.wcount') + pe['w']
+            mo = [e for e in fl.of('assign') if isinstance(e.value, RF) and not e.loops and
+                  fl.tab.equal(means[0].value, e.value + (pe['w'] / W_) * (pe['v'] - e.value))]
+            if not mo:
+                mo = [e for e in fl.of('assign') if isinstance(e.value, RF) and not e.loops and
+                      e.value.mentions(lambda a: a.head == 'attr' and a.args[0] == 'self.mean')][:1]
+        if not mo or len(means) != 1 or len(m2) != 1:
+            why.append('update statements: mean_old %d, mean %d, M2 %d' % (len(mo or []), len(means), len(m2)))
         else:
             m_old = mo[0].value
             W = code(fl, 'self.wcount') + pe['w']
@@ -442,15 +456,15 @@ for V_x in V_s:
         a1 = fl.tab.atom('elem', (pe['A'], l1.index))
         c1 = fl.tab.atom('elem', (pe['C'], l1.index))
         # the accumulators are identified by what is added to them, not by their names
-        acc = [e for e in fl.of('assign') + fl.of('aug') if l1 in e.loops and isinstance(e.value, RF) and
-               e.value.mentions(lambda a: a.head == 'elem') and getattr(e, 'op', None) != 'for']
+        hits = [e for e in fl.of('assign') + fl.of('aug') if l1 in e.loops and isinstance(e.value, RF) and
+                getattr(e, 'op', None) != 'for' and fl.tab.equal(e.value, a1 * c1)]
+        mname = hits[0].name if hits and len({e.name for e in hits}) == 1 else None
+        acc = [e for e in fl.of('assign') + fl.of('aug') if l1 in e.loops and e.name == mname and
+               getattr(e, 'op', None) != 'for']
         for e in acc:
             v = e.value
             if not fl.tab.equal(v, a1 * c1):
                 why.append('mean term %s' % fmt(fl, v))
-        mname = acc[0].name if acc and len({e.name for e in acc}) == 1 else None
-        if len(acc) != 2:
-            why.append('%d mean accumulation statements' % len(acc))
         div = [e for e in fl.of('aug') if e.name == mname and not e.loops]
         if len(div) != 1 or div[0].op != 'Div' or not fl.tab.equal(div[0].value, size):
             why.append('mean normalisation %s' % [unparse(e.node) for e in div])
@@ -535,7 +549,11 @@ for V_x in V_s:
                 ok and len(ups) >= 4, key=str([unparse(e.node)[:60] for e in ups]),
                 detail='%d updates' % len(ups), loc=f.loc())
         pv = calls(fl, 'parallelVariance')
-        okp = all(not e.guards or all('is not None' in g.text() for g in e.guards) for e in pv)
+        def _exists(g):
+            a_ = atom_of(fl, g.rf) if g.rf is not None else None
+            return a_ is not None and a_.head == 'cmp' and a_.extra == ('Is',) and not g.positive and \
+                fmt(fl, a_.args[-1]) == 'None'
+        okp = all(not e.guards or all(_exists(g) for g in e.guards) for e in pv)
         R.check('5.pv', 'MPI', site, 'parallelVariance (which gathers) is called for the same accumulators on every rank',
                 okp and len(pv) >= 4, key=str([[g.text() for g in e.guards] for e in pv]),
                 detail=str([[g.text() for g in e.guards] for e in pv]), loc=f.loc())
